@@ -39,7 +39,10 @@ DURS = ["1 day", "2 nights", "three days", "eine nacht", "zwei wochen", "half an
         "half a day", "1/2 h", "30 m", "3 months", "45 minutes", "for 2 days", "für 3 tage",
         "for one night", "for 90 minutes", "0 days", "a week", "for 4000000 days",
         "für 99999999999 tage", "for 999999 months", "for 120000 weeks", "for 87600000 hours",
-        "999999999 m", "half week", "half a month", "1/2 night", "half day", "half hour"]
+        "999999999 m", "half week", "half a month", "1/2 night", "half day", "half hour",
+        # units next to the vocabulary that no pattern knows today
+        "2 years", "für 1 jahr", "for 3 years", "30 seconds", "10 sekunden", "a fortnight",
+        "2 quarters", "ein jahrzehnt"]
 LABELS = ["#fun", "#work", "#a-b", "#_x1", "#1st", "#", "#fun#work", "# tag", "#Überraschung",
           # '#' followed by characters that mean something to a regular expression or a format
           "#(x", "#)", "#[a", "#]", "#\\q", "#\\", "#*", "#+1", "#?", "#.", "#|", "#^a", "#$",
@@ -50,7 +53,9 @@ NOISE = [" ", "\t", "–", "—", "(", ")", "[", "]", ";", ",", "​", "\n",
          "　", "﻿", "€", "日本", "ß", "İ", "ǆ", "İ", "\U0001f600", "\x00",
          "‮", "%", "\\", "'", '"', ".", ":", "::", "..", "a.m.", "p.m", "h", "m",
          "uhr", "\u0661\u0662.\u0661\u0662.\u0662\u0660\u0662\u0660", "\uff11\uff12:\uff13\uff10",
-         "\u0663 pm", "\u0968\u0966\u0968\u0966"]
+         "\u0663 pm", "\u0968\u0966\u0968\u0966",
+         # lone surrogates (half an emoji): legal in a Python str, not encodable
+         "\ud83d", "x\udfffy", "\ud800 lunch"]
 
 FIXED_TEXTS = [
     "beers and burgers friday 8pm-9pm",
